@@ -104,7 +104,13 @@ func Holders() []Holder {
 			b.use(name)
 		}}
 	}
-	return []Holder{
+	hs := []Holder{}
+	// property names over the alphabet (a complex schema under a property whose name needs escaping)
+	for _, pn := range []string{"pet owner", "ü", "a/b", "t~x", "q?", "h#", "b[0]", "{c}"} {
+		pn := pn
+		hs = append(hs, def("propNamed["+pn+"]", func(s J) J { return J{"type": "object", "properties": J{pn: s, "plain": J{"type": "string"}}} }))
+	}
+	return append(hs, []Holder{
 		def("defBody", func(s J) J { return s }),
 		def("prop", func(s J) J { return J{"type": "object", "properties": J{"p": s, "q": J{"type": "string"}}} }),
 		def("items", func(s J) J { return J{"type": "array", "items": s} }),
@@ -169,7 +175,7 @@ func Holders() []Holder {
 			c := strconv.Itoa(205 + slot)
 			b.Add(RootFile, P(J{"description": "n", "schema": J{"type": "object", "properties": J{"nested": J{"type": "array", "items": s}}}}, "paths", BasePath, "get", "responses", c))
 		}},
-	}
+	}...)
 }
 
 // Contents returns the content kinds; names instantiates the named contents.
@@ -365,6 +371,26 @@ func Contents(names []string) []Content {
 			c.Pointer = true
 		}
 	}
+	// pointers to a property whose name needs escaping in the pointer (target simple or complex)
+	for _, pn := range names {
+		if pn == "pet" {
+			continue
+		}
+		for _, cx := range []string{"simple", "complex"} {
+			pn, cx := pn, cx
+			c := add("pointerToNamedProperty["+pn+","+cx+"]", "pointer-"+cx, func(b *BundleSpec, s int) J {
+				sub := J{"type": "string", "description": "named ptr target"}
+				if cx == "complex" {
+					sub = simpleObj("npt")
+				}
+				b.Add(RootFile, P(J{"type": "object", "properties": J{pn: sub, "plain": J{"type": "string"}}}, "definitions", "tgtNamed"+cx))
+				b.use("tgtNamed" + cx)
+				b.HasPointer = true
+				return J{"$ref": "#/definitions/tgtNamed" + cx + "/properties/" + EscName(pn)}
+			})
+			c.Pointer = true
+		}
+	}
 	{
 		c := add("pointerPrefixSibling", "pointer-simple", func(b *BundleSpec, s int) J {
 			// the pointed property's name extends the name of a complex sibling: keys that are string prefixes of one another
@@ -484,6 +510,23 @@ func OtherFeatures(names []string) []Feature {
 		nm := nm
 		add("unusedDefinition["+nm+"]", "unused", func(b *BundleSpec, s int) { b.Add(RootFile, P(simpleObj("unused"), "definitions", nm)) })
 	}
+	// two created definitions competing for one generated name
+	add("twoCollidingImportsSameGeneratedName", "collide-names", func(b *BundleSpec, s int) {
+		b.Add(RootFile, P(simpleObj("rootA"), "definitions", "thingA"), P(simpleObj("rootB"), "definitions", "thingB"),
+			P(J{"type": "object", "properties": J{"home_address": J{"$ref": AuxA + "#/definitions/thingA"}}}, "definitions", "user"),
+			P(J{"type": "object", "properties": J{"address": J{"$ref": AuxA + "#/definitions/thingB"}}}, "definitions", "user_home"))
+		b.Add(AuxA, P(simpleObj("auxA"), "definitions", "thingA"), P(simpleObj("auxB"), "definitions", "thingB"))
+		b.use("thingA")
+		b.use("thingB")
+		b.use("user")
+		b.use("user_home")
+	})
+	add("twoInlineSameGeneratedName", "collide-names", func(b *BundleSpec, s int) {
+		b.Add(RootFile, P(J{"type": "object", "properties": J{"home_address": simpleObj("inl1")}}, "definitions", "member"),
+			P(J{"type": "object", "properties": J{"address": simpleObj("inl2")}}, "definitions", "member_home"))
+		b.use("member")
+		b.use("member_home")
+	})
 	add("unusedChain2", "unused-chain", func(b *BundleSpec, s int) {
 		b.Add(RootFile, P(J{"type": "object", "properties": J{"n": LocalRef("u2")}}, "definitions", "u1"), P(simpleObj("u2"), "definitions", "u2"))
 	})
